@@ -18,6 +18,8 @@ CHECKS = {
  "C07": ("exploration", "Whole system in the simulator (real Client + SOCKS5/HTTP/UDP front-ends + real Server + DNS cache on the virtual clock + rustls): histories of 1-12 requests over IPv4/IPv6/name destinations (name lengths 1..255) and boundary ports, with virtual gaps inside and beyond the 60 s cache lifetime, tiny-size padding schemes and a raw TLS client that spreads the destination over several PSH frames; oracle = the simulated network's connect/datagram log after every request.", "7/C07", ""),
  "C10": ("exploration", "Real Client and front-ends against (a) the real Server with targets that accept after a delay / refuse / black-hole and names that resolve slowly / fail / hang, and (b) a scripted TLS server answering each open before / around / after the 30 s wait, twice, for unknown ids, with an error text, never, or killing the session; 1-6 racing opens; oracle on virtual time, the connect log and every byte the application receives (one reply, success only after the connect, reason text, prompt failure on session death).", "7/C10", ""),
  "C15": ("exploration", "Rounds of datagrams of boundary sizes (1..65507) in both directions through (a) the whole system on a lossless, ordered simulated UDP network (real Client::create_udp_proxy, real sessions over rustls, real Server and handle_udp_over_tcp) and (b) the real handle_udp_over_tcp behind a real server Session fed by a scripted peer that cuts the length-prefixed byte stream into PSH frames at seeded offsets, always inside the first prefix and sometimes one byte per frame; one-for-one, same-size, same-bytes, right-address oracle.", "7/C15", ""),
+ "C18": ("exploration", "Histories of 3-14 steps on real certificate/key files in a per-run scratch directory (replace both files in either order with a reload or crash between the two writes, replace one file, truncate at offset k with k enumerated by the run index over both files, garbage, delete, chain, certificates minted to expire -10y..-5s..+10y from now, a change of the certificate file between the two reads inside reload() through a guarded fault point); after every step a fresh real TLS handshake against get_acceptor() and against a real Server::listen built on the reloadable acceptor must present the reference model's active leaf, reported info and counter must match, and a TLS session established earlier keeps echoing.", "7/C18", ""),
+ "C20": ("exploration", "Three modes: hostile frames (every command x id class x payload class incl. hostile settings/scheme texts, junk bytes, lying length fields) interleaved with valid traffic into a real client/server Session with a fault-free sibling pair in the same runtime; bit flips / length-field corruption / truncation on the pipes between two real Sessions; random and half-valid byte streams into the SOCKS5 / HTTP listeners and into a UDP-over-TCP stream of the whole system. Panics in /repo code are caught by a process-wide hook, aborts by the worker process model (RLIMIT_AS), spins by a poll budget per virtual instant; behavioural clauses: harmless input leaves valid traffic intact, any input leaves the session usable or cleanly closable, siblings and later connections unaffected.", "7/C20", ""),
  "C19": ("exploration", "Cases over {default factory touched before or not} x client scheme x 1-3 successive server schemes x 2-4 sessions x optional unparsable push. Session mode: real client Session against a real server Session with a differing/identical scheme on plaintext recording pipes (push iff md5 differs; the client's packets after the push satisfy the C05 acceptor under the pushed scheme). Client mode: real Client against a scripted TLS server that records the md5 every new session announces, pushes, switches schemes and pushes garbage (later sessions announce the pushed scheme, the pushed-to session holds it, garbage changes nothing). The process-wide default is reset before every case through a guarded hook.", "7/C19", ""),
  "C16": ("exploration", "One seeded client byte stream per run (greeting with 0-255 methods, request with any version/command/reserved/address-type byte, IPv4/IPv6/name of length 0-255, boundary ports, optional truncation at any byte or trailing bytes) written to the real SOCKS5 front-end in seeded segments down to single bytes with delays; targets accept/refuse/black-hole; sibling and fresh connections check isolation; oracle = 60-line reference SOCKS5 server + the simulated network's connect log + reply timing.", "7/C16", ""),
  "C17": ("exploration", "One seeded well-formed proxy request per run (CONNECT / absolute-form / origin-form+Host, methods incl. lower-case and extension, names / IPv4 / bracketed IPv6 with and without ports, header sets with seeded order, Host spelling and position, header blocks padded to ~1 KiB / ~2 KiB / the 64 KiB limit, body bytes in the same segments as the header and later, early tunnel bytes for CONNECT) written to the real HTTP front-end with seeded segmentation; oracle = independent reference for authority, status, the rewritten request the origin must receive byte for byte, and relayed bytes both ways.", "7/C17", ""),
